@@ -4,6 +4,7 @@ use scale_info::TypeInfo; use core::marker::PhantomData;
 pub trait Cfg { type A; }
 pub struct R; impl Cfg for R { type A = u8; }            // no TypeInfo; its associated type has
 impl Cfg for u8 { type A = u16; }
+impl Cfg for i8 { type A = String; }                       // an associated type that is NOT HasCompact
 pub struct NoInfo; pub struct NoInfoG<T>(T);
 #[derive(Clone, Debug)] pub struct NC; #[derive(Clone, Debug)] pub struct RC; impl Cfg for RC { type A = u32; }
 fn ok<T: TypeInfo + 'static>() { let t = T::type_info(); assert!(!t.path.segments.is_empty()); }
@@ -16,7 +17,7 @@ def tmpl(t, p, selfty):
     return {"direct": "%s" % p, "vec": "Vec<%s>" % p, "opt": "Option<%s>" % p, "arr": "[%s; 2]" % p, "tup": "(%s, u8)" % p, "box": "Box<%s>" % p,
             "result": "Result<%s, String>" % p, "phantom": "PhantomData<%s>" % p, "assoc": "%s::A" % p, "qassoc": "<%s as Cfg>::A" % p,
             "vecassoc": "Vec<%s::A>" % p, "selfbox": "Box<%s>" % selfty, "selfvec": "Vec<%s>" % selfty, "selfkw": "Option<Box<Self>>",
-            "selfmix": "Vec<(%s, %s)>" % (selfty, p), "selfassoc": "Vec<(%s, %s::A)>" % (selfty, p), "selfqassoc": "Vec<(%s, <%s as Cfg>::A)>" % (selfty, p),
+            "selfmix": "Vec<(%s, %s)>" % (selfty, p), "selfassoc": "Vec<(%s, %s::A)>" % (selfty, p), "selfqassoc": "Vec<(%s, <%s as Cfg>::A)>" % (selfty, p), "selfpathq": "Vec<core::option::Option<std::boxed::Box<%s>>>" % selfty,
             "skipT": "#[codec(skip)] %s" % p, "skipNoInfoG": "#[codec(skip)] NoInfoG<%s>" % p, "skipNoInfo": "#[codec(skip)] NoInfo",
             "compactc": "#[codec(compact)] u32", "concrete": "u64", "compactp": "#[codec(compact)] %s" % p, "compactassoc": "#[codec(compact)] %s::A" % p}[t]
 
@@ -89,7 +90,10 @@ def program(g, i):
             need_cd = "inline" in M or "where" in M
             inst[p] = ("RC" if need_cd else "R") if (cfg[p] or namedp[p]) else ("NC" if need_cd else "NoInfo")
         else:
-            inst[p] = "u8"
+            # a parameter whose associated type is never used in compact form is instantiated with an implementor whose
+            # associated type is not HasCompact: a bound invented for it would be unsatisfied
+            compact_use = any(t in ("compactassoc", "compactp") and q == p for t, q in fields)
+            inst[p] = "i8" if (cfg[p] and not compact_use) else "u8"
     args = ["'static"] * len(lts) + [inst[p] for p in params] + (["3"] if constp else [])
     pre2 = ""
     if any(namedp.values()):      # a trait whose associated type carries the deriving type's name
